@@ -16,6 +16,6 @@ inductive HOp
   | macCheck (arg : String) (enforced : Bool)  -- reader: Squeeze(macBuf); if !bytes.Equal(macBuf, arg) {…}
   | verifyCerts (enforced : Bool)              -- certificateParserAndVerifier (+ error check)
   | compute (what : String) (enforced : Bool)  -- DH / Agree / Decapsulate / Encapsulate / cookie (+ error check)
-  | timeCheck (enforced : Bool)                -- hidden-mode timestamp window
+  | timeCheck (cond : String) (enforced : Bool) -- hidden-mode timestamp window: `if cond { return … }`
   | rekey                                      -- RekeyFromSqueeze
   deriving DecidableEq, Repr, Inhabited
